@@ -138,10 +138,17 @@ def progress_rule(chk, W):
     for f in m.funcs.values():
         if not f.qual.startswith(("remove_", "read_")):
             continue
-        for loop in [n for n in ast.walk(f.node) if isinstance(n, ast.While)]:
+        for loop in [n for n in ast.walk(f.node) if isinstance(n, (ast.While, ast.For))]:
             nloops += 1
             ok = False
             why = "no progress argument recognised"
+            if isinstance(loop, ast.For):
+                # a for loop over a finite iterable built before the loop terminates by construction
+                itx = loop.iter
+                fin = isinstance(itx, ast.Call) and isinstance(itx.func, ast.Name) and itx.func.id in ("range", "xrange", "reversed", "enumerate", "zip") or isinstance(itx, (ast.Name, ast.Tuple, ast.List, ast.Subscript))
+                chk.ob("R10.3", "%s: for loop at line %d iterates over a finite iterable" % (f.qual, loop.lineno), bool(fin), loc="src/ecdsa/der.py:%d" % loop.lineno, key="C10|R10.3|%s|for" % f.qual,
+                       detail="%s: for loop over `%s` is not known to be finite" % (f.qual, norm_text(itx)))
+                continue
             if isinstance(loop.test, ast.Name):
                 v = loop.test.id
                 res = [s_ for s_ in loop.body if isinstance(s_, ast.Assign) and isinstance(s_.targets[0], ast.Name) and s_.targets[0].id == v and isinstance(s_.value, ast.Subscript)
